@@ -34,7 +34,7 @@ LEVEL_TEXT = (
     "The public operations are interpreted with names as opaque symbols: no evaluated path needs the length, characters, substrings, order or case of a "
     "name, uses a name as a keyword, or renames a dimension to a manufactured name - so consistent renaming cannot change acceptance or numbers on those "
     "paths; signature and SGRID text handling returns adversarial names (letters of position words, names containing them, prefixes of each other) "
-    "intact. One recorded known finding: the transform wrappers rename through fixed temporary dimension names that can collide with a user's dimension."
+    "intact. The transform wrappers are additionally interpreted with operands that already carry dimensions called like each temporary name the source manufactures: none may collide."
 )
 LEVEL_NOTE = "Trusted: xarray's handling of names. Coverage = the paths of the evaluated operation battery (listed in the evidence) plus the static census."
 
